@@ -426,6 +426,13 @@ def run(F, rep):
 
     # ------------------------------------------------------------ T5 condvar waits can be ended by the other side
     t5(F, rep)
+    # ------------------------------------------------------------ T7: what a polling loop of the producer observes reaches its exit value
+    # drain / sync_and_flush poll `while queue.<observer>() > 0 { sleep }`.  The observed counter is lowered either by
+    # pulling itself (len, current_size) - then workers that keep pulling end the loop - or by a separate completion call
+    # (task_done style); in that case every path of the worker loop from a pulled item back to the next pull must make that
+    # call, for contigs and synchronisation tokens alike, or the counter never returns to 0.
+    t7_rule(F, rep, G, worker)
+
     # ------------------------------------------------------------ T6 wake-ups are not lost (= C06-Q4/Q5)
     import rules.c06 as c06
     sub = type(rep)(rep.pid, rep.tier)
@@ -742,3 +749,110 @@ def _bulk_shape(F, q):
         return {"item": item, "count": hi[1], "size": size, "size0": size == 0, "one_per_iter": len(pushes) == 1 and dom_ok and len(exits) == 1,
                 "why": "%d heap push(es) per iteration, push dominates the back edge: %s, %d exit edge(s)" % (len(pushes), dom_ok, len(exits))}
     return None
+
+
+def t7_rule(F, rep, G, worker):
+    import rules.c06 as c06
+    from expr import strip_tags
+    R = c06.discover(F)
+    if not R:
+        return
+    inner = R["inner"]
+    ops = {f.key.rsplit("::", 1)[-1]: f for f in F.funcs.values() if f.d.get("container", "").startswith(R["outer"]) and f.kind == "assocfn" and not f.d.get("trait")}
+    # per operation: which state fields it returns / lowers / raises
+    def field_writes(f):
+        ex = Exprs(f)
+        out = []
+        for b in f.blocks:
+            for s_ in b["stmts"]:
+                if s_["k"] == "assign" and s_["pl"]["p"]:
+                    last = s_["pl"]["p"][-1]
+                    if isinstance(last, dict) and last.get("adt") == inner:
+                        e = strip_tags(ex.rvalue(s_["rv"]))
+                        kind = "set"
+                        if isinstance(e, tuple) and e[0] == "bin" and e[1] in ("Sub", "SubWithOverflow"):
+                            kind = "down"
+                        elif isinstance(e, tuple) and e[0] == "bin" and e[1] in ("Add", "AddWithOverflow"):
+                            kind = "up"
+                        elif isinstance(e, tuple) and e[0] == "field" and e[2] == "0" and "WithOverflow" in repr(e):
+                            kind = "down" if "Sub" in repr(e) else "up"
+                        out.append((last["n"], kind))
+        return out
+    writes = {n: field_writes(f) for n, f in ops.items()}
+    def observed(f):
+        ex = Exprs(f)
+        flds = set()
+        for b in f.blocks:
+            for s_ in b["stmts"]:
+                if s_["k"] == "assign" and s_["pl"]["l"] == 0 and not s_["pl"]["p"]:
+                    for x in walk(ex.rvalue(s_["rv"])):
+                        if isinstance(x, tuple) and x[0] == "field" and isinstance(x[2], str):
+                            flds.add(x[2])
+            t = b["term"]
+            if t["k"] == "call" and t["dest"]["l"] == 0 and not t["dest"]["p"]:
+                for x in walk(ex.call(t)):
+                    if isinstance(x, tuple) and x[0] == "field" and isinstance(x[2], str):
+                        flds.add(x[2])
+        return flds
+    sqc = pipeline.SQC
+    n = 0
+    for k, f in sorted(F.funcs.items()):
+        if not k.startswith(sqc):
+            continue
+        g = cfg_of(f)
+        ex = None
+        for h, body in g.loops():
+            if not any(is_call(f.blocks[b]["term"], r"std::thread::(functions::)?sleep$") for b in body):
+                continue
+            ex = ex or Exprs(f)
+            for b in body:
+                t = f.blocks[b]["term"]
+                if t["k"] != "switch" or not any(s2 not in body for s2 in g.succ[b]):
+                    continue
+                e = strip_tags(ex.operand(t["discr"]))
+                obs = [x[1].rsplit("::", 1)[-1] for x in walk(e) if isinstance(x, tuple) and x[0] == "call" and x[1].startswith(QUEUE)]
+                for o in obs:
+                    if o not in ops:
+                        continue
+                    n += 1
+                    flds = observed(ops[o]) & {fl["name"] for fl in R["inner_adt"]["variants"][0]["fields"]}
+                    # the heap counts as lowered by the removing operations
+                    lowered_by = set()
+                    for opn, ws in writes.items():
+                        for fld, kind in ws:
+                            if fld in flds and kind == "down":
+                                lowered_by.add(opn)
+                    if R["heap"] in flds:
+                        lowered_by |= {opn for opn, fo in ops.items() if any(not t2.get("indirect") and re.search(r"BinaryHeap::<T(, A)?>::pop$", t2["callee"]) for _, t2 in fo.calls())}
+                    pulling = {opn for opn in lowered_by if any(not t2.get("indirect") and re.search(r"BinaryHeap::<T(, A)?>::pop$", t2["callee"]) for _, t2 in ops[opn].calls())}
+                    ok, why = True, "observes %s, lowered by pulling itself (%s)" % (sorted(flds), sorted(pulling))
+                    if not lowered_by:
+                        ok, why = False, "observes %s, which no queue operation ever lowers" % sorted(flds)
+                    elif not pulling:
+                        # a separate completion call: every worker path from a pulled item to the next pull must make it
+                        gw = cfg_of(worker)
+                        done = {bi for bi, t2 in worker.calls() if not t2.get("indirect") and t2["callee"] in {QUEUE + d for d in lowered_by}}
+                        pulls = [bi for bi, t2 in worker.calls() if not t2.get("indirect") and t2["callee"] == QUEUE + "pull"]
+                        bad = None
+                        for pb in pulls:
+                            start = worker.blocks[pb]["term"].get("t")
+                            seen, st = set(), [start]
+                            while st:
+                                x = st.pop()
+                                if x in seen or x in done or x is None or worker.blocks[x]["cleanup"]:
+                                    continue
+                                seen.add(x)
+                                for s2 in gw.succ[x]:
+                                    if s2 == pb and x != pb:
+                                        bad = x
+                                    st.append(s2)
+                                tx = worker.blocks[x]["term"]
+                                if tx["k"] == "return":
+                                    pass
+                        ok = bad is None and bool(pulls)
+                        why = "observes %s, lowered only by %s; %s" % (sorted(flds), sorted(lowered_by),
+                                                                     "every worker path from a pulled item to the next pull calls it" if ok else
+                                                                     "the worker reaches its next pull from %s without calling it (e.g. the synchronisation-token branch): the counter never returns to 0 and the loop never ends" % site_of(worker, worker.blocks[bad]["term"]))
+                    rep.ob("C05-T7", "%s: the polling loop on %s() ends once the workers have taken what was queued" % (k.rsplit("::", 1)[-1], o), ok, detail=why,
+                           site=site_of(f, t), key="C05-T7 | %s | %s" % (k, o))
+    rep.floor("C05-T7", n, 2, "producer polling loops (drain, sync_and_flush)")
